@@ -8,9 +8,9 @@ from typing import Any, Dict, List, Optional
 from . import tlc
 
 
-def view(k, par, size=0, off=0, slen=1, lst=(), hdr=0, tail=0, width=1):
+def view(k, par, size=0, off=0, slen=1, lst=(), hdr=0, tail=0, width=1, blen=0):
     return {"k": k, "par": par, "size": size, "off": off, "slen": slen, "list": list(lst),
-            "hdr": hdr, "tail": tail, "width": width}
+            "hdr": hdr, "tail": tail, "width": width, "blen": blen}
 
 
 def config(base, views, flen=None, targets=None, extra=()):
@@ -50,6 +50,10 @@ def tiny_configs(wide: bool = False) -> List[dict]:
                         view("off", 1, size=3, off=1), view("off", 2, size=3, off=1)], targets=[3, 4]))
     # two CDDA-like windows over the file
     C.append(config(8, [view("off", 0, size=4, off=0), view("off", 0, size=4, off=4)]))
+    # readall with a buffer smaller than the view: several loop iterations (reversed: buffer a multiple of the width)
+    C.append(config(8, [view("off", 0, size=5, off=2, blen=2)]))
+    C.append(config(8, [view("chain", 0, slen=2, lst=[2, 0, 3], blen=3)]))
+    C.append(config(6, [view("rev", 0, size=6, width=2, blen=4)]))
     # empty windows (an AKAI sample whose markers coincide): read must return nothing
     C.append(config(6, [view("off", 0, size=0, off=2)]))
     C.append(config(8, [view("chain", 0, slen=2, lst=[2, 0]), view("wrap", 1, size=4), view("off", 2, size=0, off=1)], targets=[3]))
@@ -136,16 +140,17 @@ def build(cfg: dict):
     for d in cfg["views"]:
         par = objs[d["par"]]
         k = d["k"]
+        kw = {"buffer_length": d["blen"]} if d.get("blen") else {}
         if k == "wrap":
-            o = StreamWrapper(par, d["size"])
+            o = StreamWrapper(par, d["size"], **kw)
         elif k == "off":
-            o = StreamOffset(par, d["size"], d["off"])
+            o = StreamOffset(par, d["size"], d["off"], **kw)
         elif k == "rev":
-            o = StreamReversed(par, d["size"], sample_width=d["width"])
+            o = StreamReversed(par, d["size"], sample_width=d["width"], **kw)
         elif k == "sect":
-            o = SectorStream(par, d["size"], d["slen"])
+            o = SectorStream(par, d["size"], d["slen"], **kw)
         elif k == "chain":
-            o = FileStream(par, d["slen"], list(d["list"]))
+            o = FileStream(par, d["slen"], list(d["list"]), **kw)
         elif k == "mdf":
             with MdfPatch(d["hdr"], d["slen"], d["tail"]):
                 o = mdf.MdfStream(par)
